@@ -257,12 +257,38 @@ PROPS = {
         technique="Verus on the real table builder + Kani bounded harnesses on the real lookup / trace code",
         scope="source-location tables and lookups",
         assumptions=[]),
+    "C10": dict(
+        units=["u3_str", "u8_sched", "u4a_ctrl"], level="model_checking",
+        level_text=("Two mechanisms. (a) Resumable string arms (proof, Verus): the six string comparisons and ConcatStrings are per-step inductive state machines whose "
+                    "result is a function of the operands only, whatever the step budgets. (b) Scheduler (bounded): with one runnable thread and no spawns, "
+                    "run_n_steps(k1); run_n_steps(k2) performs the same steps and ends in the same status as run_n_steps(k1+k2); a thread with a pending host call is "
+                    "skipped and delays only itself (exhaustive execution of the natively compiled real scheduler over a contract-only step() stub: queue <= 3, "
+                    "budget <= 4, <= 1 spawn; HostFunc arm proved by Verus to set pending_host_func and nothing else)."),
+        level_note=("The scheduler half is exhaustive bounded execution, not proof; VmGreenThread::step is replaced by a contract-only nondeterministic stub whose contract "
+                    "is what the arm units prove arm by arm (all 24 flag-setting statements of the real step() are checked textually to be followed by `return false`). "
+                    "Output independence for programs with several communicating tasks is a whole-history property and is not decided."),
+        technique="Verus per-step inductive contracts on lifted arms + exhaustive bounded execution of the real scheduler + Kani on loop-free calls",
+        scope="string arms; Runtime::run_n_steps and below",
+        assumptions=["VmGreenThread::step behaves as its contract-only stub (u8_step); ffi feature off"]),
+    "C11": dict(
+        units=["u8_sched", "u4a_ctrl", "u4_plumbing"], level="model_checking",
+        level_text=("Runtime::run_n_steps and below on the real vm.rs with step() replaced by a contract-only stub: steps_consumed <= k and equals the number of step calls; "
+                    "Done iff the main thread executed Stop (other tasks runnable, blocked or pending notwithstanding) and no task instruction runs after it in the same "
+                    "call; a main-thread error is reported as MainThreadError(kind), never Done; pending host call reported unless main is done; top() after Done reads "
+                    "the finished main thread's last slot; no host panic in validate/main(); the representation invariant is established by Runtime::new and preserved. "
+                    "Stop/HostFunc arms: Verus proofs. Bounded: queue <= 3, budget <= 4 (5 thorough), <= 1 spawn; Kani for update_status_helper, finish_thread_turn, main lookup."),
+        level_note=("Exhaustive bounded execution + Kani, not proof. Behaviours observed on real code that the property does not forbid: after Done further run_n_steps calls "
+                    "keep running other tasks; an error in a non-main task is never reported (a main thread waiting on it busy-loops on OutOfSteps); top() after Done "
+                    "panics for a program ending in a void expression; run_with_granularity(0) loops forever."),
+        technique="exhaustive bounded execution of the natively compiled real scheduler over a contract-only step() stub + Kani on the loop-free calls + Verus on the Stop/HostFunc arms",
+        scope="Runtime::run_n_steps and below, except step()",
+        assumptions=["VmGreenThread::step behaves as its contract-only stub (u8_step); ffi feature off"]),
 }
 
 NOT_APPLICABLE = {
 
     "C08": PENDING,
-    "C09": PENDING, "C10": PENDING, "C11": PENDING, 
+    "C09": PENDING, 
     
     
     "C02": "needs a semantics-preservation proof of translate_expr/translate_stmt (3 kLoC AST recursion over Rc/HashMap/StaticsContext); no function-level contract short of compiler correctness expresses it",
